@@ -192,6 +192,7 @@ func (g *tgen) fill(v reflect.Value, depth int) {
 				[]string{"-v", "--all"}, map[string]string{"k": "v"}, Inner{X: 1, Y: "y"}, &Inner{X: 2}, []byte("hi"),
 				int32(3), uint8(4), float32(0.5), map[string]int{"n": 1}, []Inner{{X: 1}}, In3{A: "a"},
 				customMarshal{1}, &customMarshal{2}, []customMarshal{{3}}, float32(0.1),
+				strMarshal{1}, numMarshal{4}, &numMarshal{5}, arrMarshal{2}, &ptrMarshal{3}, convMarshal{6}, boolMarshal{true}, nullMarshal{}, ptrMarshal{7},
 			}
 			tv := gen.Pick(g.r, typedVals)
 			switch g.r.Intn(3) {
@@ -235,6 +236,69 @@ type Inner struct {
 	Y string `json:"y,omitempty"`
 }
 
+// marshalers producing every JSON kind, by value and by pointer receiver, and the optional direct converter
+type strMarshal struct{ N int }
+
+func (m strMarshal) MarshalJSON() ([]byte, error) { return []byte(fmt.Sprintf(`"s-%d"`, m.N)), nil }
+
+type numMarshal struct{ N int }
+
+func (m numMarshal) MarshalJSON() ([]byte, error) {
+	switch m.N % 3 {
+	case 0:
+		return []byte(fmt.Sprintf(`%d`, m.N)), nil
+	case 1:
+		return []byte(fmt.Sprintf(`%d.5`, m.N)), nil
+	default:
+		return []byte(fmt.Sprintf(`%de2`, m.N)), nil
+	}
+}
+
+type boolMarshal struct{ B bool }
+
+func (m boolMarshal) MarshalJSON() ([]byte, error) {
+	if m.B {
+		return []byte("true"), nil
+	}
+	return []byte("false"), nil
+}
+
+type nullMarshal struct{ N int }
+
+func (m nullMarshal) MarshalJSON() ([]byte, error) { return []byte("null"), nil }
+
+type arrMarshal struct{ N int }
+
+func (m arrMarshal) MarshalJSON() ([]byte, error) { return []byte(fmt.Sprintf(`[%d,"a",{"k":null}]`, m.N)), nil }
+
+type ptrMarshal struct{ N int }
+
+func (m *ptrMarshal) MarshalJSON() ([]byte, error) { return []byte(fmt.Sprintf(`"p-%d"`, m.N)), nil }
+
+type convMarshal struct{ N int }
+
+func (m convMarshal) MarshalJSON() ([]byte, error) { return []byte(fmt.Sprintf(`"c-%d"`, m.N)), nil }
+func (m convMarshal) ToUnstructured() interface{}  { return fmt.Sprintf("c-%d", m.N) }
+
+type withMarshalers struct {
+	S  strMarshal             `json:"s"`
+	SP *strMarshal            `json:"sp,omitempty"`
+	N  numMarshal             `json:"n"`
+	B  boolMarshal            `json:"b"`
+	Z  nullMarshal            `json:"z"`
+	ZO *nullMarshal           `json:"zo,omitempty"`
+	A  arrMarshal             `json:"a"`
+	P  ptrMarshal             `json:"p"`
+	PP *ptrMarshal            `json:"pp"`
+	C  convMarshal            `json:"c"`
+	L  []numMarshal           `json:"l,omitempty"`
+	LP []ptrMarshal           `json:"lp,omitempty"`
+	M  map[string]strMarshal  `json:"m,omitempty"`
+	MP map[string]*ptrMarshal `json:"mp,omitempty"`
+	MV map[string]ptrMarshal  `json:"mv,omitempty"`
+	I  interface{}            `json:"i,omitempty"`
+}
+
 // nested inline embedding, three and four levels deep, by value and by pointer
 type In3 struct {
 	A string `json:"a3"`
@@ -272,7 +336,8 @@ type ptrInline struct {
 	L     []interface{}          `json:"l0,omitempty"`
 }
 
-var compiledTypes = []reflect.Type{reflect.TypeOf(deepInline{}), reflect.TypeOf(ptrInline{}), reflect.TypeOf(In1{}), reflect.TypeOf(PIn2{})}
+var compiledTypes = []reflect.Type{reflect.TypeOf(deepInline{}), reflect.TypeOf(ptrInline{}), reflect.TypeOf(In1{}), reflect.TypeOf(PIn2{}),
+	reflect.TypeOf(withMarshalers{}), reflect.TypeOf(withMarshalers{})}
 
 // ---------------------------------------------------------------------------------------------
 
@@ -426,6 +491,96 @@ func domRfl(r *gen.Rng, n int, thorough bool, o *Out) {
 					o.Fail("C18", "reflect/equality-and-order-symmetric", "", "reflect/equality-and-order-symmetric "+op, op)
 				}
 				return ans.String()
+			})
+		}
+		// two reflected values of one Go type against each other (the struct-to-struct zip), tied to the
+		// model through val.cmp on their JSON round trips
+		safe(func() string {
+			ptr2 := reflect.New(ptr.Type().Elem())
+			g.fill(ptr2.Elem(), 3)
+			if cr.Chance(30) {
+				ptr2.Elem().Set(ptr.Elem())
+			}
+			want2, err := viaJSON(ptr2.Interface())
+			if err != nil {
+				return ""
+			}
+			op := "val.cmp " + vx.Unstructured(want) + " " + vx.Unstructured(want2)
+			o.Emit(op, func() string {
+				ra, _ := value.NewValueReflect(ptr.Interface())
+				rb, _ := value.NewValueReflect(ptr2.Interface())
+				ans := valAns(ra, rb)
+				rev := valAns(rb, ra)
+				if sign(ans.c) != -sign(rev.c) || ans.e != rev.e {
+					o.Fail("C18", "reflect/equality-and-order-symmetric", "two reflected values of one type", "reflect/equality-and-order-symmetric "+op, op)
+				}
+				return ans.String()
+			})
+			return ""
+		})
+		// Map.Set through the generic interface on a reflected struct: a field whose Go type takes
+		// unstructured data as it is (string, bool, int64, float64, interface{}) is given the value the
+		// same field has in another instance; exactly that entry changes
+		if ptr.Type().Elem().Kind() == reflect.Struct {
+			safe(func() string {
+				st := ptr.Type().Elem()
+				var cands []int
+				for i := 0; i < st.NumField(); i++ {
+					f := st.Field(i)
+					if f.Anonymous || f.Tag.Get("json") == "-" || strings.Contains(f.Tag.Get("json"), "inline") {
+						continue
+					}
+					switch f.Type {
+					case reflect.TypeOf(""), reflect.TypeOf(false), reflect.TypeOf(int64(0)), reflect.TypeOf(float64(0)), reflect.TypeOf((*interface{})(nil)).Elem():
+						cands = append(cands, i)
+					}
+				}
+				if len(cands) == 0 {
+					return ""
+				}
+				i := gen.Pick(cr, cands)
+				f := st.Field(i)
+				name := f.Name
+				if tag := f.Tag.Get("json"); tag != "" && !strings.HasPrefix(tag, ",") {
+					name = strings.Split(tag, ",")[0]
+				}
+				src := reflect.New(st)
+				g.fill(src.Elem(), 3)
+				nv := src.Elem().Field(i)
+				if nv.Kind() == reflect.Interface && nv.IsNil() {
+					return ""
+				}
+				nu, err := viaJSON(nv.Interface())
+				if err != nil {
+					return ""
+				}
+				if f.Type == reflect.TypeOf(float64(0)) {
+					nu = nv.Float() // Set takes the Go value as it is: keep a float a float
+				}
+				cp := reflect.New(st)
+				cp.Elem().Set(ptr.Elem())
+				rv, err := value.NewValueReflect(cp.Interface())
+				if err != nil || !rv.IsMap() {
+					return ""
+				}
+				rv.AsMap().Set(name, value.NewValueInterface(nu))
+				exp := reflect.New(st)
+				exp.Elem().Set(ptr.Elem())
+				exp.Elem().Field(i).Set(nv)
+				wantAfter, err1 := viaJSON(exp.Interface())
+				gotAfter, err2 := viaJSON(cp.Interface())
+				if err1 != nil || err2 != nil {
+					return ""
+				}
+				if vx.CanonValue(value.NewValueInterface(gotAfter)) != vx.CanonValue(value.NewValueInterface(wantAfter)) {
+					o.Fail("C18", "map/set-changes-exactly-that-entry", "field "+name+": "+vx.CanonValue(value.NewValueInterface(gotAfter))+" want "+vx.CanonValue(value.NewValueInterface(wantAfter)),
+						"map/set-changes-exactly-that-entry "+sig, "rfl:"+sig)
+				}
+				if vx.CanonValue(rv) != vx.CanonValue(value.NewValueInterface(wantAfter)) {
+					o.Fail("C18", "map/set-consistent-with-data", "", "map/set-consistent-with-data "+sig, "rfl:"+sig)
+				}
+				o.Tag("rfl:struct-set")
+				return ""
 			})
 		}
 		// typed operations under the deduced type give the same answers
